@@ -11,9 +11,11 @@ CHECKS = {
              "reject, global list, Initialized flag) answers every query like the property (inclusive range + ALL>category>code) "
              "for all histories of <=3 (quick) / <=4 (thorough) add-operations over the alphabet the property names; every "
              "reached state is replayed into the real structure in every insertion order with all 42 queries compared, and "
-             "random longer histories recorded from the real structure are validated step by step by IgnoreSetTrace.",
+             "random longer histories recorded from the real structure are validated step by step by IgnoreSetTrace. Thorough tier: Apalache "
+             "checks that the representation invariant (IgnoreSetInd.tla) is inductive and implies Impl = Ref for any set of markers, i.e. "
+             "without a bound on the number of add-operations.",
         note="Trusted: TLC, the 150-line replay/record driver in harness/cmd/vh/ignoreset.go, positions >= 1 for markers.",
-        technique="TLA+ model (IgnoreSet.tla) checked by TLC; exhaustive state replay into util.IgnoreSet + trace validation (IgnoreSetTrace.tla)",
+        technique="TLA+ model (IgnoreSet.tla) checked by TLC (+ inductive invariant IgnoreSetInd.tla checked by Apalache in the thorough tier); exhaustive state replay into util.IgnoreSet + trace validation (IgnoreSetTrace.tla)",
         design="5/C16"),
     "C19": dict(
         text="TLC checks that the three-regime truncation model (ReadWindow, Truncate, PlaceCaret) satisfies the property (caret over the "
@@ -24,7 +26,7 @@ CHECKS = {
              "between diagnostics; every history of <=3 (quick) / <=4 (thorough) reports on two files is replayed through one real Reporter "
              "(window, context text, byte-identity with a fresh Reporter, number of ReadFile calls).",
         note="Trusted: TLC, the message parser in harness/cmd/vh/excerpt.go and reporterseq.go; columns are byte offsets.",
-        technique="TLA+ models (Excerpt.tla, ReporterCache.tla) checked by TLC; exhaustive replay of model states and histories into reporting.Reporter",
+        technique="TLA+ models (Excerpt.tla, ReporterCache.tla) checked by TLC, the truncation arithmetic for every display limit by Apalache (ExcerptAll.tla); exhaustive replay of model states and histories into reporting.Reporter",
         design="5/C19"),
     "C01": dict(
         text="TLC checks that the declaration-by-declaration walk of the immutable checker (context reset on leaving a declaration) "
